@@ -1,4 +1,6 @@
 """C09 - the `error` argument decides exactly what a violation raises."""
+import copy
+
 import ckprop
 import genck
 import implck
@@ -65,6 +67,11 @@ def _ck_cases(tier, rng):
     thorough = tier == "thorough"
     for c in _exh():
         yield "exh", c
+        if ckprop.ans_kind(c["levels"][0]["pre"][0]["err"] if c["levels"][0]["pre"] else c["levels"][0]["posts"][0]["err"]) in ("inst", "cls", "none") \
+                and rng.random() < 0.5:
+            c2 = copy.deepcopy(c)
+            c2["twice"] = True
+            yield "twice", c2
     for _ in range(30000 if thorough else 4000):
         yield "rnd", genck.random_case(rng, ans_weights=AW, falsy_errors=True, raising_errors=True, max_posts=2)
 
@@ -117,6 +124,9 @@ def _ck_spec(case, mo, io):
     if io.get("define", ["ok"]) != ["ok"]:
         return ["definition raised %s" % (io["define"],)]
     fails = []
+    if "second" in io and [io["second"]["out"], io["second"]["trace"]] != [io["out"], io["trace"]]:
+        fails.append("the same violation raised again gives %s %s, the first time %s %s"
+                     % (io["second"]["out"], io["second"]["trace"], io["out"], io["trace"]))
     sur = _surfaced(case, mo, io)
     facs = [ev for ev in io["trace"] if ev[0] == "errfac"]
     if sur is None:
@@ -227,6 +237,10 @@ def _ck_stats(case, mo, io, dist):
 
 
 def run_impl(case):
+    if case.get("twice"):
+        a, b = implck.run_seq([case, case])
+        a["second"] = {"out": b["out"], "trace": b["trace"]}
+        return a
     return _C19.run_impl(case)
 
 
